@@ -7,6 +7,8 @@ import (
 	"encoding/json"
 	"fmt"
 	"os"
+	"runtime"
+	"runtime/pprof"
 	"strconv"
 	"time"
 
@@ -32,6 +34,13 @@ func main() {
 	if err := c07.RunSearch(tier, seed, repo, out); err != nil {
 		fmt.Fprintln(os.Stderr, "error:", err)
 		os.Exit(1)
+	}
+	if p := os.Getenv("WRH_C07_HEAPPROF"); p != "" {
+		runtime.GC()
+		if f, err := os.Create(p); err == nil {
+			pprof.WriteHeapProfile(f)
+			f.Close()
+		}
 	}
 	b, _ := json.MarshalIndent(out, "", " ")
 	fmt.Println(string(b))
